@@ -308,7 +308,10 @@ def arith(env, op, a, b):
             return SV('real', x.t / yy, n)
         raise Unmodelled('%s on reals' % op)
     if op == '**':
-        raise Unmodelled('power')
+        if x.sort != 'int' or not z3.is_int_value(y.t) or not (0 <= y.t.as_long() <= 3): raise Unmodelled('power with a non-constant or large exponent')
+        t = z3.IntVal(1)
+        for _ in range(y.t.as_long()): t = t * x.t
+        return SV('int', t, n)
     raise Unmodelled('operator %s' % op)
 
 
@@ -607,6 +610,25 @@ def _call(node, env):
             return SV(v.sort, z3.If(v.t < 0, -v.t, v.t), v.n)
         if name == 'exists' and len(args) == 1:
             return truth(env, ev(args[0], env))
+        if name == 'between' and len(args) == 3:
+            # pony.orm.core.between(x, a, b): a <= x <= b
+            x, lo, hi = [as_data(ev(a_, env)) for a_ in args]
+            r = and3([cmp_values(env, '<=', lo, x), cmp_values(env, '<=', x, hi)])
+            return cond(r.t, r.n)
+        if name == 'concat' and len(args) >= 2:
+            # pony.orm.core.concat(*args): ''.join(str(arg) ...); str(None) == 'None' has no SQL counterpart and is left out of the claim
+            vals = [as_data(ev(a_, env)) for a_ in args]
+            parts = []
+            for v in vals:
+                if not isinstance(v, SV) or v.sort not in ('str', 'int'): raise Unmodelled('concat of %r' % (v,))
+                env.undefined.append(v.n)
+                parts.append(v.t if v.sort == 'str' else sqlsem.INT2STR(v.t))
+            return SV('str', z3.Concat(*parts), z3.Or([v.n for v in vals]))
+        if name == 'str' and len(args) == 1:
+            v = as_data(ev(args[0], env))
+            if not isinstance(v, SV) or v.sort not in ('int', 'str'): raise Unmodelled('str() of %r' % (v,))
+            env.undefined.append(v.n)                      # str(None) == 'None': no SQL counterpart, outside the claim
+            return v if v.sort == 'str' else SV('str', sqlsem.INT2STR(v.t), v.n)
         if name == 'coalesce':
             vals = [as_data(ev(a, env)) for a in args]
             res = vals[-1]
@@ -653,6 +675,12 @@ def _call(node, env):
                 return cond(t, z3.Or(recv.n, args[0].n))
             if m == 'upper' and not args: return SV('str', sqlsem.UPPER(recv.t), recv.n)
             if m == 'lower' and not args: return SV('str', sqlsem.LOWER(recv.t), recv.n)
+            if m in ('strip', 'lstrip', 'rstrip') and len(args) <= 1:
+                k = {'strip': 'trim', 'lstrip': 'ltrim', 'rstrip': 'rtrim'}[m]
+                if not args: return SV('str', sqlsem.py_trim(k, recv.t), recv.n)
+                c = args[0]
+                if not isinstance(c, SV) or c.sort != 'str': raise Unmodelled('strip characters')
+                return SV('str', sqlsem.py_trim(k, recv.t, c.t), z3.Or(recv.n, c.n))
             raise Unmodelled('string method %s' % m)
         if isinstance(recv, (Coll, Bag)):
             if m in ('count',) and not node.args: return aggregate(env, 'count', recv)
